@@ -388,6 +388,10 @@ func (i *Interpreter) Exec(ctx context.Context, bs match.Bindings, props core.St
 	var x interface{}
 	if err == nil {
 		x, err = exportValue(v)
+	} else if ex, is := err.(*goja.Exception); is {
+		// Rendering an exception calls the thrown value's
+		// toString, which is script code as well.
+		err = exceptionError(ex)
 	}
 	cancel()
 
@@ -441,6 +445,24 @@ func exportValue(v goja.Value) (x interface{}, err error) {
 		}
 	}()
 	return v.Export(), nil
+}
+
+// exceptionError turns a script exception into a plain error.
+//
+// The text is ex.Error(), which asks the thrown value for its string
+// form: a thrown object's own toString can throw (or never return),
+// and that must not crash (or hang) the host.
+func exceptionError(ex *goja.Exception) (err error) {
+	defer func() {
+		if r := recover(); r != nil {
+			if ie, is := r.(*goja.InterruptedError); is {
+				err = ie
+				return
+			}
+			err = errors.New("exception (the thrown value cannot be printed)")
+		}
+	}()
+	return errors.New(ex.Error())
 }
 
 func RunProgram(o *goja.Runtime, p *goja.Program) (v goja.Value, err error) {
